@@ -130,16 +130,21 @@ class P(Problem):
         self.costs = [{"name": "f0", "criteria": "minimize"}, {"name": "f1", "criteria": "maximize"}]
 
     def evaluate(self, individual):
+        x0 = list(individual.vector)          # the model reads its input when it starts
         STATE["obj"] += 1
         if INJ and INJ["kind"] == "A" and INJ["k"] == STATE["obj"]:
             die()
         if spec.get("slow_ms"):
             time.sleep(spec["slow_ms"] / 1000.0)
         CLOCK[0] += spec.get("model_s") or 0.0
+        if spec.get("slow_call") and STATE["obj"] == spec["slow_call"]:
+            time.sleep(1.2)          # a model evaluation that (really) takes longer than the declared time_out of 0.5 s
+        elif spec.get("slow_call") and STATE["obj"] > spec["slow_call"]:
+            time.sleep(0.35)         # the following ones take a while too, but respect the limit
         if spec.get("fail_call") and STATE["obj"] == spec["fail_call"]:
             raise RuntimeError("the solver diverged (injected transient failure)")
         individual.custom["blob"] = BLOB + str(STATE["obj"])
-        return f(individual.vector)
+        return f(x0)
 
 
 def snap(ind):
@@ -176,6 +181,8 @@ class LoggedStore(SqliteDataStore):
 
 
 problem = P()
+if spec.get("slow_call"):
+    problem.options["time_out"] = 0.5
 problem.data_store = LoggedStore(problem, database_name=spec["db"])
 STATE["armed"] = True
 log({"e": "ARMED"})
